@@ -49,7 +49,11 @@ GENERIC = (
     "N-D SkyCoord queries; sky polygons with edges of tens of degrees; APE-14 WCS objects that are not astropy.wcs.WCS (sliced cubes); pixel "
     "scale taken at the reference pixel instead of locally; compound operands whose boxes share exactly one pixel column; SkyCoords held in "
     "hourangle/radians; format keywords (background, source, ...) as words inside labels/tags; '#' inside quoted values; big-endian tables read "
-    "from FITS files; anything depending on the wall clock; zero-length lines; `__getstate__`/`__ne__` hooks; NaN sizes.")
+    "from FITS files; anything depending on the wall clock; zero-length lines; `__getstate__`/`__ne__` hooks; NaN sizes; block-wise processing of very long queries; defects in `contains` seen only through "
+    "mask-vs-contains comparisons; `subpixels=1`; round axis ratios (100); query positions in another equinox of the same frame class; slit-like "
+    "rectangles (aspect >= 8); `numpy.bool_` flags; `write()` losing options that `serialize()` honours; MaskedArray images; capital letters in file "
+    "names; `rotate(center=..., angle=...)` by keyword; x/y of equal size but different shapes; stale private flags on copied bounding boxes; "
+    "module-level 'warn once' sets; astropy global equivalencies enabled without `with`.")
 
 LEFT = (
     "Think about what is LEFT: e.g. the order in which two independent features are applied; behaviour at the exact edge of a documented domain "
